@@ -35,3 +35,12 @@ def register(check):
           floors={"quick": {"timeout_values": 1300, "timeout_valid": 800, "timeout_malformed": 200, "timeout_saturating": 3},
                   "thorough": {"timeout_values": 60000, "timeout_valid": 30000, "timeout_malformed": 5000, "timeout_saturating": 10}},
           assumptions=COMMON_ASSUMPTIONS + ["all-zero timeout values are excluded (specification says positive, grpc-go accepts 0; the property does not decide)"])
+    check("C09",
+          level="fault_enumeration",
+          rule="raw-client conversations generated from the protocol grammar (settings awaited, a finished stream, a well-formed bystander stream, 1-3 victim streams of the four shapes with chunked messages) "
+               "x the catalogue of single-frame deviations x positions (quick: every 7th position, thorough: every position) x {forward, reverse}, plus PRNG multi-mutations; each judged by the sequential reference classifier; "
+               "non-trivial = conversation reached the verdict stage; distinct = distinct (deviation, position, configuration, observed handler op shape)",
+          nontrivial="raw_conversations",
+          floors={"quick": {"raw_conversations": 300, "raw_expect_tunnel_dead": 30, "raw_expect_tunnel_alive": 200, "raw_clean_streams": 400, "raw_refused_streams": 10, "raw_handler_msgs_checked": 500},
+                  "thorough": {"raw_conversations": 8000, "raw_expect_tunnel_dead": 800, "raw_clean_streams": 10000, "raw_refused_streams": 100}},
+          assumptions=COMMON_ASSUMPTIONS + ["only the classes the documentation pins are demanded exactly (see DESIGN.md C09); other deviations must fail only their stream or be ignored"])
